@@ -77,12 +77,13 @@ class NtTriplesYielder(BaseTriplesYielder):
 
     def _look_for_last_index_before_blank(self, target_str, first_index):
         """
-        Index of the last char of a token that starts at first_index and ends at the next blank.
-        A blank node label, a language tag or a number never end in a dot: a dot in that position
-        is the final dot of the statement (with no blank before it), not a part of the token.
+        Index of the last char of a token that starts at first_index and ends at the next blank
+        (or right before a comment). A blank node label, a language tag or a number never end in a dot:
+        a dot in that position is the final dot of the statement (with no blank before it), not a part
+        of the token.
         """
         index = first_index
-        while index < len(target_str) and not target_str[index].isspace():
+        while index < len(target_str) and not target_str[index].isspace() and target_str[index] != "#":
             index += 1
         if target_str[index - 1] == ".":
             index -= 1
